@@ -7,6 +7,7 @@ mod runner;
 mod sqlgen;
 mod util;
 mod audit;
+mod pagesdrv;
 mod tuple;
 mod wal;
 mod wire;
@@ -20,6 +21,7 @@ fn main() {
     let rest = util::Args(args[1..].to_vec());
     let code = match args[0].as_str() {
         "wal" => wal::main(&rest),
+        "pages" => pagesdrv::main(&rest),
         "tuple" => tuple::main(&rest),
         "wire" => wire::main(&rest),
         "probe" => probe::main(&rest),
